@@ -7,7 +7,10 @@ for p in sorted(glob.glob('/verif/seeded/*/meta.json')):
     det=[c for c,d in m['our_checks_quick'].items() if d['detected']]
     own = k[:3] in det
     note = "" if own or not det else " (not by its own property's check: the break is a %s-type behaviour)" % det[0]
-    rows.append("| %s | %s | %s%s |" % (k, m.get('needs_to_manifest','').replace('|','/'), ", ".join(det) or "MISSED", note))
+    verdict = ", ".join(det) or "MISSED"
+    if m.get('status') == 'retired_equivalent':
+        verdict, note = "none, correctly: equivalent change on the current tree (no-false-alarm control)", ""
+    rows.append("| %s | %s | %s%s |" % (k, m.get('needs_to_manifest','').replace('|','/'), verdict, note))
 head = open('/verif/tools/design_11_4_head.md').read()
 tail = open('/verif/tools/design_11_4_tail.md').read()
 s=open('/verif/DESIGN.md').read()
